@@ -46,15 +46,19 @@ func (t *inProcessTransport) markClosed() {
 	}
 }
 
-func (t *inProcessTransport) Send(_ context.Context, e envelope) error {
+func (t *inProcessTransport) Send(ctx context.Context, e envelope) error {
 	t.mu.RLock()
 	closed := t.closed
 	t.mu.RUnlock()
 	if closed {
 		return errors.New("transport is closed")
 	}
-	t.remote.envChan <- e
-	return nil
+	select {
+	case <-ctx.Done():
+		return fmt.Errorf("send: %w", ctx.Err())
+	case t.remote.envChan <- e:
+		return nil
+	}
 }
 
 func (t *inProcessTransport) Receive(ctx context.Context) (envelope, error) {
